@@ -803,6 +803,7 @@ impl Property for StepProp {
         if judged > 0 {
             cov.hit("runs_with_judged_operation");
         }
+        cov.nontrivial = Some(judged > 0);
         for h in &stats.state_hashes {
             cov.states.add(*h);
         }
